@@ -293,7 +293,7 @@ def gen_equality(rng):
                               'list_append']) \
                 if attr == 'meta' else rng.choice(
                 ['append_nl', 'append_crlf', 'strip_nl', 'append_space',
-                 'swapcase', 'prepend_bom'])
+                 'swapcase', 'prepend_bom', 'empty'])
             ops.append({'op': 'tweak', 'tree': 'T2', 'path': path,
                         'attr': attr, 'how': how})
         elif k < 6:
